@@ -31,13 +31,25 @@ class VirtualTimeLoop(asyncio.SelectorEventLoop):
         self.deadlocked = False
         self.iterations = 0
         self.time_jumps = 0
+        self.livelock_limit = 1_000_000
+        self.livelock_jumps = 0
+        self._last_jump_iter = 0
 
     def time(self):
         return self._vtime
 
     def _run_once(self):
         self.iterations += 1
+        if (self._ready and self._scheduled
+                and self.iterations - self._last_jump_iter > self.livelock_limit):
+            # Busy for `livelock_limit` consecutive iterations: messages keep flowing
+            # and nothing lets time pass. Force the clock forward so that bounded-
+            # progress timers (vwait) can expire: a livelock is a hang, not a pass.
+            self.livelock_jumps += 1
+            self._last_jump_iter = self.iterations
+            self._vtime += 2 * T_V
         if not self._ready and not self._stopping:
+            self._last_jump_iter = self.iterations
             # drop cancelled timers at the head
             while self._scheduled and self._scheduled[0]._cancelled:
                 self._timer_cancelled_count -= 1
